@@ -71,6 +71,8 @@ impl FixtureDatabase {
                     "Failed to parse Python file {:?}: {} - keeping previous data",
                     file_path, e
                 );
+                #[cfg(pytest_language_server_verif)]
+                self.verif_trace_analysis(&file_path, content, cleanup_previous, false);
                 return;
             }
         };
@@ -129,6 +131,9 @@ impl FixtureDatabase {
         }
 
         debug!("Analysis complete for {:?}", file_path);
+
+        #[cfg(pytest_language_server_verif)]
+        self.verif_trace_analysis(&file_path, content, cleanup_previous, true);
 
         // Periodically evict cache entries to prevent unbounded memory growth
         self.evict_cache_if_needed();
